@@ -266,6 +266,11 @@ impl<S: Read + Write> Client<S> {
     pub fn shutdown(&mut self) -> RdpResult<()> {
         self.transport.shutdown()
     }
+
+    /// Number of bytes buffered by the TLS layer
+    pub fn buffered_read_size(&self) -> usize {
+        self.transport.buffered_read_size()
+    }
 }
 
 #[cfg(test)]
